@@ -26,7 +26,8 @@ ColSets == <<<<>>, <<N_p1, N_p2d5>>, <<N_q0d1, N_q0d9>>, <<N_e0, N_e1, N_e2>>, <
              <<N_pop, N_px, N_e1x, N_pm1>>, <<N_e0, N_crps, N_p2d5, N_q0d9, N_quality>>,
              <<N_pd5, N_qd9, N_pmd5, N_p5dot, N_p1em5>>,            \* 8: every spelling of a number that the format's "p<number>" admits
              <<N_p10, N_p0, N_p5, N_p1>>,
-             <<N_q0, N_q0d5, N_q1>>>>                       \* 10: quantile levels 0 and 1                  \* 9: four thresholds, listed in an order that is neither ascending nor descending
+             <<N_q0, N_q0d5, N_q1>>,
+             <<N_x, N_time, N_cdf, N_threshold, N_quantile>>>>       \* 11: other score columns named like the NetCDF layout's own variables                       \* 10: quantile levels 0 and 1                  \* 9: four thresholds, listed in an order that is neither ascending nor descending
 Base == [timefmt |-> "unixtime", leadname |-> N_leadtime, hasLead |-> TRUE, idname |-> N_location, elevname |-> N_altitude,
          hasElev |-> TRUE, latlon |-> TRUE, hasObs |-> TRUE, hasFcst |-> TRUE, hasPit |-> FALSE, colset |-> 1,
          colorder |-> "id", roworder |-> "id", absent |-> {}, misscells |-> {}, misstok |-> "-999", meta |-> 0]
@@ -35,7 +36,7 @@ Base2 == [Base EXCEPT !.timefmt = "datehour", !.leadname = N_offset, !.idname = 
                       !.misstok = "abc", !.meta = 2]
 Options == [timefmt |-> {"unixtime", "date", "datehour"}, leadname |-> {N_leadtime, N_offset}, hasLead |-> BOOLEAN,
             idname |-> {N_location, N_id}, elevname |-> {N_altitude, N_elev}, hasElev |-> BOOLEAN, latlon |-> BOOLEAN,
-            hasObs |-> BOOLEAN, hasFcst |-> BOOLEAN, hasPit |-> BOOLEAN, colset |-> 1..10, colorder |-> {"id", "rev", "rot"},
+            hasObs |-> BOOLEAN, hasFcst |-> BOOLEAN, hasPit |-> BOOLEAN, colset |-> 1..11, colorder |-> {"id", "rev", "rot"},
             roworder |-> {"id", "rev", "rot"}, absent |-> {{}, {1}, {2, 7}, {1, 2, 3, 4}, {2, 3, 5, 8}},
             misscells |-> {{}, {<<1, "obs">>}, {<<2, "fcst">>, <<5, "obs">>}, {<<1, "x">>, <<4, "x">>}, {<<3, "lat">>}},
             misstok |-> {"-999", "nan", "abc", "NA", "-999.0", "-1000", "-998.5"}, meta |-> 0..3]
@@ -62,9 +63,9 @@ GridRows(x) ==     \* <<t, l, id>> in row-major order, minus the absent ones
       all == [n \in 1..(Len(ts) * Len(ls) * 2) |-> <<ts[((n - 1) \div (2 * Len(ls))) + 1], ls[(((n - 1) \div 2) % Len(ls)) + 1], IdsG[((n - 1) % 2) + 1]>>]
       keepIdx == SelectSeq([n \in DOMAIN all |-> n], LAMBDA n : n \notin x.absent)
   IN  [k \in DOMAIN keepIdx |-> <<keepIdx[k], all[keepIdx[k]]>>]
-WellFormed(x) == (x.hasObs \/ x.hasFcst \/ x.colset \in {2, 3, 5, 7, 8, 9, 10})            \* the header needs at least one data column
+WellFormed(x) == (x.hasObs \/ x.hasFcst \/ x.colset \in {2, 3, 5, 7, 8, 9, 10, 11})            \* the header needs at least one data column
                  /\ GridRows(x) # <<>>                                                  \* at least one data row (a file without rows is not in the domain)
-Gens(u) == {x \in (IF Universe = "quick" THEN Vary1(Base) \cup Vary1(Base2) \cup {[Base2 EXCEPT !.colset = k, !.colorder = o] : k \in 1..10, o \in {"id", "rev", "rot"}}
+Gens(u) == {x \in (IF Universe = "quick" THEN Vary1(Base) \cup Vary1(Base2) \cup {[Base2 EXCEPT !.colset = k, !.colorder = o] : k \in 1..11, o \in {"id", "rev", "rot"}}
                    ELSE Vary2(Base) \cup Vary2(Base2)) : WellFormed(x)}
 
 \* which abstract column kind a header name is, for the generator's own purposes
@@ -125,10 +126,12 @@ InvIntended ==
   /\ Elems(I.ids) = {c[2][3] : c \in Elems(GridRows(g))}
   /\ I.hasObs = g.hasObs /\ I.hasFcst = g.hasFcst /\ I.hasPit = g.hasPit
   /\ Cardinality(I.thresholds) + Cardinality(I.quantiles) + Cardinality(I.members) + Cardinality(I.others) = Len(ColSets[g.colset])
+  /\ (g.colset = 11 => I.others = {N_x, N_time, N_cdf, N_threshold, N_quantile})
   /\ (g.colset = 6 => I.others = {N_pop, N_px, N_e1x} /\ I.thresholds = {R(-1)})
   /\ (g.hasObs => \A c \in DOMAIN I.obs : IsNaN(I.obs[c]) \/ I.obs[c] \in {R(-1000), Frac(-1997, 2)}
                                               \/ ((I.obs[c][1] \div I.obs[c][2]) % 1000) = Code(c[1], c[2], c[3]))
 \* ---- witnesses against vacuity (tools/vacuity.py) ----
+W_ReservedNames == ~(g.colset = 11)
 W_NoLeadingDigit == ~(g.colset = 8)
 W_MixedOrderThresholds == ~(g.colset = 9 /\ g.colorder # "id")
 =============================================================================
